@@ -256,6 +256,9 @@ def check_sources_sinks(run, cx, cfg):
 
 
 def run(run, tier, loadcfg):
+    if tier == 'thorough':
+        import witness
+        witness.check(run, 'c09', 1)
     run.rule_text = 'one instance per function x rule; process() is checked as a step function over all acyclic paths incl. generic loop iterations'
     run.explanation = __doc__
     run.assumptions = ['petgraph DfsPostOrder / Reversed / neighbors_directed behave as documented (the traversal itself is not verified)',
